@@ -1017,7 +1017,7 @@ func init() {
 			return c17G{t}.call(c17Calls, "call")
 		},
 		Check: c17Check, Class: c17Class,
-		Quick: 6000, Thorough: 60000,
+		Quick: 6000, Thorough: 25000,
 		Timeout: 90 * time.Second,
 		Known: []vs.Known[c17Case]{
 			c17Known(c17KeyPowFixed, "call", "use math; math:pow 0 -1"),
@@ -1061,7 +1061,7 @@ func init() {
 		Rule:  "one form (alone, or first/last/middle stage of a pipeline) whose head writes values, writes bytes or reads its input, with 1..4 redirections: operators < > >> <>, destinations default/0-5/7/64/1023/names/negative/minimum int/non-numeric/empty/nil/list/hex, sources &fd (incl. unset, 1024, max int, negative, junk), &-, file names (existing, new, directory, missing directory, empty, invalid UTF-8, NUL), file objects, pipes, maps with and without r/w, lists, numbers, nil, two values; destination fds above 1023 are not generated (open finding " + c17KeyHugeFd + "); heads that read never get a duplicate of an output port as input; non-trivial = every case",
 		Gen:   func(t *rapid.T) c17Case { return c17G{t}.redirForm() },
 		Check: c17Check, Class: c17Class,
-		Quick: 3000, Thorough: 30000,
+		Quick: 3000, Thorough: 15000,
 		Timeout: 90 * time.Second,
 		Known: []vs.Known[c17Case]{
 			c17Known(c17KeyNegFdFixed, "redir", "echo a -5>&1"),
